@@ -160,11 +160,11 @@ def run(tier):
     if len(ccs) < 2:
         rep.note('compilers available: %s' % ccs)
     if tier == 'quick':
-        matrix = [('gcc', '-O2', ''), ('clang', '-O0', '-ffreestanding')]
+        matrix = [('gcc', '-O2', ''), ('clang', '-O0', '-ffreestanding'), ('gcc', '-O0', '-fPIC')]
     else:
         for cc in ccs:
             for o in ('-O0', '-O2', '-Os'):
-                for fs in ('', '-ffreestanding'):
+                for fs in ('', '-ffreestanding', '-fPIC'):
                     matrix.append((cc, o, fs))
     matrix = [m for m in matrix if m[0] in ccs]
     sysflags = [f for f in next(u for u in units if u.config == 'systemd').flags]
@@ -205,6 +205,21 @@ def run(tier):
     rep.analysed['compiler_configurations'] = configs_done
     if len(configs_done) < len(matrix):
         rep.broke('only %d of %d compiler configurations could be analysed' % (len(configs_done), len(matrix)))
+
+    # ---- (e) storage the OS / loader has to provide: thread-local objects need the TLS runtime (__tls_get_addr, TLS segment
+    # set-up by the loader or the RTOS), which is neither lltdPort.h nor compiler runtime - whatever model a given build picks
+    rep.rule('R20.e', 'no thread-local storage in the core (TLS is provided by the OS loader / thread library, not by the port API)', floor=1)
+    ntls = 0
+    for ix in prog.index.values():
+        for n in facts.walk(ix.unit.ast):
+            if n.get('kind') == 'VarDecl' and (n.get('_file') or '').startswith(os.path.join(REPO, 'lltdResponder') + os.sep):
+                ntls += 1
+                if n.get('tls'):
+                    rep.fail('R20.e', 'tls|%s' % n.get('name'), 'core object `%s` has thread-local storage (%s): the core depends on the platform\'s TLS runtime and keys its '
+                             'state on the calling OS thread, none of which goes through lltdPort.h' % (n.get('name'), n.get('tls')), node=n, function=n.get('_fn'))
+    if ntls == 0:
+        rep.broke('no variable declarations found in core files')
+    rep.ok('R20.e')
 
     # ---- (c)(d) lexer-level rules -------------------------------------------------------
     conditionals = []
